@@ -1211,3 +1211,105 @@ _run_c03_19 = run
 def run(res, facts, tier):
     _run_c03_19(res, facts, tier)
     r10_array_stores(res, facts)
+
+
+# ----------------------------------------------------------------------------------------------- R11: handles into the per-transformation factory
+HANDLE_OWNERS = ('StylesheetExecutionContextDefault', 'XPathExecutionContextDefault', 'VariablesStack', 'XSLTEngineImpl')
+HANDLE_REVIEWED = {
+    'XSLTEngineImpl::m_stylesheetParams': 'top-level parameters set by the caller (setStylesheetParam with an XObjectPtr of the caller\'s own factory); they are meant to persist until '
+                                          'clearStylesheetParams() and do not point into the per-transformation factory',
+}
+
+
+def r11_dangling_handles(res, facts):
+    """XObjectPtr values point into the object factory of the transformation; XalanTransformer resets that factory after every transformation, also after a failed one.
+    A long-lived object (execution contexts, the variables stack, the engine) that still holds such values afterwards destroys or copies them later: use of freed memory.
+    So every member of those classes whose type contains XObjectPtr must be emptied by the class's own reset()."""
+    r = res.rule('C03-R11', 'handles into the per-transformation object factory: every member of the long-lived execution objects (execution contexts, variables stack, engine) whose '
+                 'type contains XObjectPtr, directly or through element / field types, is emptied by the reset() of its class (after an aborted transformation the push / pop '
+                 'pairs are not balanced, and the factory behind the handles is reset)', floor=4)
+
+    import re as _re
+
+    def holds(ty, depth=0):
+        if ty.rstrip().endswith('*') and '<' not in ty:
+            return False            # a pointer to an object is not a holder of its fields' values here
+        ty = _re.sub(r'(const\s+)?[A-Za-z_][A-Za-z_0-9:]*\s*\*', ' ', ty)      # pointers to objects do not hold the objects' values
+        names = set(_re.findall(r'[A-Za-z_][A-Za-z_0-9]*(?:::[A-Za-z_][A-Za-z_0-9]*)*', ty))
+        if any(x.endswith('XObjectPtr') for x in names):
+            return True
+        if depth > 3:
+            return False
+        for nm in names:
+            k2 = facts.K.get(nm) or facts.K.get(NS_ + nm)
+            if k2 is None or nm.endswith(('XalanVector', 'XalanDeque', 'XalanMap', 'XalanList', 'XalanDOMString')):
+                continue
+            for fld in k2.get('fields', []):
+                if holds(fld.get('ty', ''), depth + 1):
+                    return True
+        return False
+    written = {w['field'] for w in facts.W if w.get('field')} if hasattr(facts, 'W') else set()
+    NS_ = 'xalanc_1_12::'
+    n = 0
+    for owner in HANDLE_OWNERS:
+        k = facts.K.get(NS_ + owner)
+        if k is None:
+            continue
+        resets = [a for a in facts.asts(owner + '::reset', must=False) if a.get('body') is not None and len(a['params']) == 0]
+        if not resets:
+            continue
+        body = resets[0]
+        cleared = set()
+        # members emptied directly, or by member functions of the same class called from reset()
+        todo = [body]
+        seen = set()
+        while todo:
+            b = todo.pop()
+            if id(b) in seen:
+                continue
+            seen.add(id(b))
+            for c in calls(b['body']):
+                o = strip_casts(c.get('obj')) if c.get('obj') is not None else None
+                nm = c.get('n') or ''
+                if c.get('k') == 'MCall' and o is not None and o.get('k') == 'Member' and nm in ('clear', 'reset', 'resize', 'erase', 'swap'):
+                    cleared.add(o.get('m'))
+                if c.get('k') == 'MCall' and (o is None or o.get('k') == 'This') and c.get('usr'):
+                    b2 = facts.ast(c['usr'])
+                    if b2 is not None and b2.get('body') is not None and (c.get('cls') or '').endswith(owner):
+                        todo.append(b2)
+            for x in walk(b['body']):
+                if x.get('k') == 'Bin' and x['op'] == '=':
+                    t = strip_casts(x['lhs'])
+                    if t.get('k') == 'Member':
+                        cleared.add(t.get('m'))
+                if x.get('k') == 'OpCall' and x.get('op') == '=' and x.get('args'):
+                    t = strip_casts(x['args'][0])
+                    if t.get('k') == 'Member':
+                        cleared.add(t.get('m'))
+        for fld in k.get('fields', []):
+            ty = fld.get('ty', '')
+            if not holds(ty):
+                continue
+            n += 1
+            site = '%s::%s' % (owner, fld['n'])
+            if site in HANDLE_REVIEWED:
+                r.ok(site, 'reviewed: ' + HANDLE_REVIEWED[site])
+            elif fld['n'] in cleared:
+                r.ok(site, 'emptied by %s::reset()' % owner)
+            elif written and not any(x.endswith('::%s::%s' % (owner, fld['n'])) or x.endswith(owner + '::' + fld['n']) for x in written):
+                r.ok(site, 'no function of the built configuration writes the member')
+            else:
+                r.violation(site, 'the member (%s) holds handles into the object factory of the transformation and is not emptied by %s::reset(): after a transformation that '
+                            'ended in an error while values were pushed, the handles outlive the factory reset and are copied or destroyed later (use of freed memory)'
+                            % (ty.replace(NS_, ''), owner), common.file_line(body))
+    if n < 4:
+        raise AnalysisBroken('only %d members holding XObjectPtr found in %s' % (n, ', '.join(HANDLE_OWNERS)))
+    return r
+
+
+_run_c03_prev11 = run
+
+
+def run(res, facts, tier):
+    _run_c03_prev11(res, facts, tier)
+    r11_dangling_handles(res, facts)
